@@ -144,7 +144,42 @@ VARIANTS: List[Tuple[str, str, str, str, str, Tuple[str, ...]]] = [
     (S, 'eaitemmove-item-from-source', 'EAItemMove.item', "return Item(self.base_tag.find('element_target'))", "return Item(self.base_tag.find('element_source'))", ('C20',)),
     (S, 'storymove-target-is-first-id', 'StoryMove.target_story', 'id=stories[1].text', 'id=stories[0].text', ('C20',)),
     (S, 'itemmovemultiple-items-drop-first', 'ItemMoveMultiple.items', "findall('itemID')[:-1]", "findall('itemID')[1:]", ('C20',)),
+    # ---------------------------------------------------------------- constructs added for refactoring tolerance (must still bite)
+    (S, 'iteminsert-offset-form-fixed-index', 'ItemInsert.merge',
+     '        for i, item in enumerate(self.items, start=item_index):\n            insert_node(parent=story, node=copy.deepcopy(item.xml), index=i)',
+     '        for offset, item in enumerate(self.items):\n            insert_node(parent=story, node=copy.deepcopy(item.xml), index=item_index)', ('C02',)),
+    (S, 'iteminsert-offset-form-off-by-one', 'ItemInsert.merge',
+     '        for i, item in enumerate(self.items, start=item_index):\n            insert_node(parent=story, node=copy.deepcopy(item.xml), index=i)',
+     '        for offset, item in enumerate(self.items):\n            insert_node(parent=story, node=copy.deepcopy(item.xml), index=item_index + offset + 1)', ('C02',)),
+    (S, 'eastorymove-any-form-target-unchecked', 'EAStoryMove.merge', 'if story is target_story or story in source_stories:',
+     'if any(story is seen for seen in source_stories):', ('C01', 'C05')),
+    (S, 's3-comprehension-startswith', 'utils.s3:get_mos_files',
+     "        for file in contents:\n            key = file['Key']\n            if key.endswith(suffix):\n                files.append(key)",
+     "        files.extend([key for file in contents if (key := file['Key']).startswith(suffix)])", ('C18',)),
+    (S, 's3-keyerror-escapes', 'utils.s3:get_mos_files', "            contents = page['Contents']\n        except KeyError:", "            contents = page['Contents']\n        except IndexError:", ('C18',)),
+    (S, 's3-first-thousand-keys', 'utils.s3:get_mos_files', '        for file in contents:', '        for file in contents[:1000]:', ('C18',)),
+    (S, 'validate-issubclass-filter', 'MosCollection._validate', 'mr for mr in self.mos_readers if mr.mos_type == RunningOrder\n',
+     'mr for mr in self.mos_readers if issubclass(mr.mos_type, RunningOrder)\n', ('C11',)),
+    (S, 'parse-string-memoised', 'MosFile.from_string', '    @classmethod\n    def from_string', '    @classmethod\n    @functools.lru_cache(maxsize=32)\n    def from_string', ('C07', 'C13')),
     # ================================================================== twins (must stay silent)
+    (T, 'note-index-guarded-by-caller', 'moselements:_is_technical_note', "    if text.startswith('(') and text.endswith(')'):\n        return True",
+     "    if text[0] == '(' and text[-1] == ')':\n        return True", ('C17', 'C15')),       # Story.script only calls it for a non-blank paragraph
+    (T, 'iteminsert-offset-form', 'ItemInsert.merge',
+     '        for i, item in enumerate(self.items, start=item_index):\n            insert_node(parent=story, node=copy.deepcopy(item.xml), index=i)',
+     '        for offset, item in enumerate(self.items):\n            insert_node(parent=story, node=copy.deepcopy(item.xml), index=item_index + offset)', ('C02', 'C05')),
+    (T, 'eastorymove-any-form', 'EAStoryMove.merge', 'if story is target_story or story in source_stories:',
+     'if any(story is seen for seen in (target_story, *source_stories)):', ('C01', 'C05', 'C12')),
+    (T, 's3-comprehension-form', 'utils.s3:get_mos_files',
+     "        for file in contents:\n            key = file['Key']\n            if key.endswith(suffix):\n                files.append(key)",
+     "        files.extend([key for file in contents if (key := file['Key']).endswith(suffix)])", ('C18',)),
+    (T, 's3-page-get-form', 'utils.s3:get_mos_files',
+     "        try:\n            contents = page['Contents']\n        except KeyError:\n            # a page without keys: carry on with the next page\n            continue\n",
+     "        contents = page.get('Contents', [])\n", ('C18',)),
+    (T, 'validate-continue-loop-form', 'MosCollection._validate', '        if not all(mr.ro_id == ro_id for mr in self.mos_readers):',
+     '        if any(mr.ro_id != ro_id for mr in self.mos_readers):', ('C11',)),
+    (T, 'note-filter-any-over-table', 'moselements:_is_technical_note',
+     "    if text.startswith('(') and text.endswith(')'):\n        return True\n    if text.startswith('<') and text.endswith('>'):\n        return True\n    return False",
+     "    return any(text.startswith(a) and text.endswith(b) for a, b in (('(', ')'), ('<', '>')))", ('C17',)),
     (T, 'storymove-plain-subtraction', 'StoryMove.merge', 'target_story_index -= 1', 'target_story_index = target_story_index - 1', ('C01', 'C05')),
     (T, 'itemdelete-none-first', 'ItemDelete.merge', 'if story is None:', 'if None is story:', ('C02', 'C06')),
     (T, 'storyreplace-positional-args', 'StoryReplace.merge', "find_child(parent=ro.base_tag, child_tag='story', id=self.story.id)", "find_child(ro.base_tag, 'story', self.story.id)", ('C01', 'C03')),
